@@ -92,6 +92,29 @@ CHECKS = {
         note=TB + "; findRemote / loomGetCpu are static lookups proved invariant under steps",
         technique="Lean 4 invariant proofs over the CPU bookkeeping + differential ovniemu runs + recomputation oracle",
         design="DESIGN.md §5 C05"),
+    "C06": dict(
+        text=("Theorems (Props/C06.lean, 33) over a mechanism-level transcription of bay.c (growing dirty list processed by index, "
+              "ordered enabled-callback lists, dirty/emit/flush phases), mux.c (cb_select, cb_input, DIRTY_WRITE/ALLOW_DUP "
+              "outputs), track.c, thread_select_running/active and connect_cpu: for ONE mux in any network satisfying the frame "
+              "condition, any set of writes to the select and input channels in any order followed by propagation with ANY order "
+              "of the dirty list yields output = spec(f(select), inputs) and the enabled input = f(select) (mux_round, "
+              "mux_round_event, mux_always); every mux of a two-level network is in sync after every event, including shared "
+              "selects and inputs (network_round, layered_frame); bay_propagate never fails and needs no fuel bound "
+              "(propagate_total, *_fuel_sufficient); a RUN/ACT thread track output is the channel's top exactly while the mode "
+              "holds for the new state, ANY aliases the input, and the CPU track output is the raw value of the thread named "
+              "by th_running or the default: these are thView / cpuView of the reference emulator (track_thread_view, "
+              "track_thread_thView, track_cpu_view, track_cpu_cpuView), lifted to any number of threads, CPUs and channels "
+              "(topology_frame, topology_thread_rows, topology_cpu_rows); the generated channel specs use only these modes "
+              "(generated_thread_modes, generated_cpu_modes, decide). OPEN: the simulation from the handlers of Emu/Core to "
+              "the bay writes is a hypothesis of track_*_thView/cpuView (tested by the e2e run). Tie: X1 the real chan.c/"
+              "bay.c/mux.c/track.c in an ASan/UBSan harness vs the Lean bay on random networks (values, last values, dirty "
+              "flags, selected/enabled inputs, dirty-list and emit order) plus a spec oracle; X2 ovniemu vs the reference "
+              "emulator and independent oracles recomputing every thread row from the raw history and every CPU row from the "
+              "thread rows, on histories interleaving value events with pause/resume/cool/warm/migrate."),
+        note=TB + "; utlist/uthash order assumed; chained and self-selecting muxes (breakdown) are outside the theorems (C20, "
+             "X1 correspondence); channel names not modelled",
+        technique="Lean 4 refinement proof with loop invariants over the growing dirty list + differential runs (C harness, ovniemu)",
+        design="DESIGN.md §5 C06"),
     "C07": dict(
         text=("Theorems (Props/C07.lean, 12) over a transcription of body.c/task.c (one branch per C guard, in order) and of the "
               "nOS-V / Nanos6 update_task layer, against a life-cycle specification written independently: the model accepts a "
